@@ -35,8 +35,8 @@ FILES = {
     "src/translating/classical_reduction/completion.rs": ["C04", "C02"],
     "src/simplifying/fol/sigma_0/classic.rs": ["C07", "C18"],
     "src/simplifying/fol/sigma_0/intuitionistic.rs": ["C07", "C18"],
-    "src/syntax_tree/fol/sigma_0.rs": ["C17", "C07", "C02", "C13"],
-    "src/syntax_tree/asp/mini_gringo.rs": ["C01", "C11", "C04"],
+    "src/syntax_tree/fol/sigma_0.rs": ["C17", "C07", "C02", "C13", "C03"],
+    "src/syntax_tree/asp/mini_gringo.rs": ["C01", "C11", "C04", "C08"],
     "src/breaking/fol/sigma_0/ht.rs": ["C19"],
     "src/verifying/problem/mod.rs": ["C19", "C09", "C12", "C03"],
     "src/verifying/task/strong_equivalence.rs": ["C03", "C12"],
